@@ -19,6 +19,7 @@ func init() {
 			"every value that holds its own copy of the no-evaluation switch gets that copy set where it is created (C19.licence-initialised)",
 			"from LoadYAML / LoadMetadata / LoadWithoutEval, the read-only DAGStore methods and the daemon's entry reader, no call path - continued into library functions through their static calls (e.g. a shell-words parser that runs backtick substitutions) - reaches process creation, environment mutation or file-system mutation unless some call site on the path is dominated by an evaluation licence (`!noEval`, or a boolean parameter that every caller binds to `!noEval`) (C19.sinks)",
 			"the evaluating loader dag.Load is called only from command bodies in package cmd (C19.eval-loader-callers)",
+			"an options value built inside a loader function that itself received options is a copy of them or takes the no-evaluation switch from them (C19.licence-carried)",
 		},
 		NotDec: []string{
 			"effects inside dependencies reached by reflection or other dynamic calls (yaml, mapstructure, mergo); library functions are followed through their static calls only",
@@ -250,6 +251,7 @@ type depRes struct {
 }
 
 func runC19(e *Env) {
+	c19LicenceCarried(e, "C19.licence-carried")
 	r := e.R
 	r.Rule("C19.sinks", "REACH", "no unlicensed path from a non-evaluating entry point to a side-effect sink", 1)
 	c := &c19{e: e, paramMem: map[*ssa.Parameter]int{}, pathTo: map[*ssa.Function]string{}}
